@@ -19,13 +19,13 @@
 #define MAXLEN  4096
 
 enum { CL_ADD_BETWEEN, CL_REMOVE_BETWEEN, CL_MATCH, CL_NOMATCH, CL_NEARMISS, CL_SHORT, CL_SEGFILTER,
-       CL_MULTI, CL_ZERO_OUT, CL_BIG, CL_DUPFILTER, CL_PARENT_FIRST, CL_HOLD, CL_PARTIALMASK, CL_REMOVED_WOULD_MATCH, CL_REJECTING_SINK };
+       CL_MULTI, CL_ZERO_OUT, CL_BIG, CL_DUPFILTER, CL_PARENT_FIRST, CL_HOLD, CL_PARTIALMASK, CL_REMOVED_WOULD_MATCH, CL_REJECTING_SINK, CL_LAZY_OUTPUT };
 static const char *const class_names[] = {
     "output_added_between_sections", "output_removed_between_sections", "some_output_matched",
     "some_output_did_not_match", "one_masked_bit_off", "section_shorter_than_filter",
     "segment_boundary_inside_filtered_octets", "section_to_several_outputs", "section_with_no_output",
     "section_ge_1024", "two_outputs_same_filter", "split_released_before_outputs", "sink_holds_outputs",
-    "mask_with_partial_octet", "removed_output_would_have_matched", "sink_refusing_flow_definitions", NULL };
+    "mask_with_partial_octet", "removed_output_would_have_matched", "sink_refusing_flow_definitions", "output_connected_from_need_output_event", NULL };
 
 struct out {
     bool live, used;
@@ -131,7 +131,11 @@ static void add_output(struct ctx *c)
     o->sub = upipe_flow_alloc_sub(c->split, c16_probe_init(&o->probe, "out", c->nout, c->rep, c->render), flow_def);
     uref_free(flow_def);
     if (!o->sub) { FAIL("C16/split/alloc-output", "allocation of output %d refused", c->nout); c->nout++; return; }
-    if (!ubase_check(upipe_set_output(o->sub, &o->sink.upipe))) FAIL("C16/split/set-output", "set_output on output %d refused", c->nout);
+    if (((seed >> 3) & 3) == 3) {
+        /* lazily plumbed: no output yet; the first section that matches makes the sub-pipe throw need_output, the probe connects the sink */
+        o->probe.lazy_output = &o->sink.upipe;
+        CLS(CL_LAZY_OUTPUT);
+    } else if (!ubase_check(upipe_set_output(o->sub, &o->sink.upipe))) FAIL("C16/split/set-output", "set_output on output %d refused", c->nout);
     o->live = true;
     c->hash = vp_hash_mix(c->hash, 0x1000000 | (a << 16) | (tid << 8) | seed);
     if (c->render) {
